@@ -80,20 +80,27 @@ def generate(verif, repo, bdir):
     libs_needed = set()
     for name, b in props.BINARIES.items():
         if b.get("lib", True):
-            libs_needed.add((b.get("san", "asan") if b.get("main") != "fuzz" else "asan", b.get("abi", 1)))
+            libs_needed.add((b.get("san", "asan") if b.get("main") != "fuzz" else "asan", b.get("abi", 1), b.get("cxx", CXX)))
     lsrcs = lib_sources(repo)
-    for (san, abi) in sorted(libs_needed):
+    for (san, abi, cxx) in sorted(libs_needed):
         objs = []
+        tag = "" if cxx == CXX else "_" + cxx.replace("+", "x")
         for rel in lsrcs:
-            o = "obj/lib_%s_abi%d/%s.o" % (san, abi, rel.replace("/", "_"))
+            o = "obj/lib_%s_abi%d%s/%s.o" % (san, abi, tag, rel.replace("/", "_"))
             w("build %s: cc %s" % (esc(o), esc(os.path.join(repo, rel))))
             w("  flags = %s %s %s" % (BASE, SAN[san], incs(abi)))
+            if cxx != CXX:
+                w("  cxx = %s" % cxx)
             objs.append(o)
-        w("build lib/libotel_%s_abi%d.a: ar %s" % (san, abi, " ".join(esc(o) for o in objs)))
+        w("build lib/libotel_%s_abi%d%s.a: ar %s" % (san, abi, tag, " ".join(esc(o) for o in objs)))
 
     # --- common harness objects per sanitizer variant ---------------------------------------------
     common = {}
-    for san in ("asan", "tsan", "fuzz"):
+    compilers = sorted({b.get("cxx", CXX) for b in props.BINARIES.values()})
+    for cxx_ in compilers:
+      for san in ("asan", "tsan", "fuzz"):
+        if cxx_ != CXX and san == "fuzz":
+            continue
         for src in ("vh_core.cc", "main_rc.cc", "main_fuzz.cc", "main_plain.cc"):
             if san == "fuzz" and src in ("main_rc.cc", "main_plain.cc"):
                 continue
@@ -102,18 +109,23 @@ def generate(verif, repo, bdir):
             p = os.path.join(verif, "harness/common", src)
             if not os.path.exists(p):
                 continue
-            o = "obj/common_%s/%s.o" % (san, src)
+            ctag = "" if cxx_ == CXX else "_" + cxx_.replace("+", "x")
+            o = "obj/common_%s%s/%s.o" % (san, ctag, src)
             # the driver mains are never coverage-instrumented
             flags = SAN[san] if san != "fuzz" else SAN["asan"]
             w("build %s: cc %s" % (o, esc(p)))
             w("  flags = %s %s %s" % (BASE, flags, incs(1)))
-            common[(san, src)] = o
+            if cxx_ != CXX:
+                w("  cxx = %s" % cxx_)
+            common[(san, src, cxx_)] = o
 
     # --- binaries ---------------------------------------------------------------------------------
     for name, b in sorted(props.BINARIES.items()):
         main = b.get("main", "rc")
         san = "fuzz" if main == "fuzz" else b.get("san", "asan")
         abi = b.get("abi", 1)
+        bcxx = b.get("cxx", CXX)
+        cxx_line = ("  cxx = %s" % bcxx) if bcxx != CXX else None
         defs = " ".join("-D" + d for d in b.get("defines", []))
         first = []
         order_only = []
@@ -143,6 +155,8 @@ def generate(verif, repo, bdir):
             oo = (" || " + " ".join(esc(x) for x in order_only)) if order_only else ""
             w("build %s: cc %s%s" % (esc(o), esc(p), oo))
             w("  flags = %s %s %s %s%s" % (BASE, SAN[san], defs, incs(abi, first), extra_inc))
+            if cxx_line:
+                w(cxx_line)
             objs.append(o)
         for rel in b.get("repo_srcs", []):
             o = "obj/%s/repo_%s.o" % (name, rel.replace("/", "_"))
@@ -150,13 +164,13 @@ def generate(verif, repo, bdir):
             w("build %s: cc %s%s" % (esc(o), esc(os.path.join(repo, rel)), oo))
             w("  flags = %s %s %s %s" % (BASE, SAN[san], defs, incs(abi, first)))
             objs.append(o)
-        objs.append(common[(san, "vh_core.cc")])
-        objs.append(common[(san, {"rc": "main_rc.cc", "fuzz": "main_fuzz.cc", "plain": "main_plain.cc"}[main])])
+        objs.append(common[(san, "vh_core.cc", bcxx)])
+        objs.append(common[(san, {"rc": "main_rc.cc", "fuzz": "main_fuzz.cc", "plain": "main_plain.cc"}[main], bcxx)])
         libs = []
         implicit = []
         if b.get("lib", True):
             lsan = "asan" if san == "fuzz" else san
-            la = "lib/libotel_%s_abi%d.a" % (lsan, abi)
+            la = "lib/libotel_%s_abi%d%s.a" % (lsan, abi, "" if bcxx == CXX else "_" + bcxx.replace("+", "x"))
             libs.append(la)
             implicit.append(la)
         if main == "rc":
@@ -166,6 +180,8 @@ def generate(verif, repo, bdir):
                                       (" | " + " ".join(implicit)) if implicit else ""))
         w("  ldflags = %s" % LINKSAN[san])
         w("  libs = %s" % " ".join(libs))
+        if cxx_line:
+            w(cxx_line)
     text = "\n".join(L) + "\n"
     path = os.path.join(bdir, "build.ninja")
     old = None
